@@ -177,23 +177,39 @@ Definition calcfg_mw (b : board) (c cmd su dtype dsize : Z) : list cell :=
   then flat_map (rs_all_cells b) (filter (fun i => rs_matches b i c) (slots RS_MAX))
   else [].
 
+(* the `switch (result->Func)` of supla_esp_channel_config_result as generated: kind 1 = roller-shutter group
+   (supla_esp_gpio_rs_apply_new_config), kind 2 = facade-blind group (supla_esp_gpio_fb_apply_new_config) *)
+Definition func_has_kind (k f : Z) : bool :=
+  existsb (fun row => match row with [g; k'] => (g =? f) && (k' =? k) | _ => false end) CONFIG_FUNCS.
 Definition is_relay_func (f : Z) : bool := (f =? FNC_STAIRCASE) || (f =? FNC_POWERSWITCH) || (f =? FNC_LIGHTSWITCH).
-Definition is_rs_func (f : Z) : bool :=
-  (f =? FNC_RS) || (f =? FNC_AWNING) || (f =? FNC_SCREEN) || (f =? FNC_CURTAIN) || (f =? FNC_GARAGE) || (f =? FNC_ROOFWINDOW).
-Definition is_fb_func (f : Z) : bool := (f =? FNC_FACADEBLIND) || (f =? FNC_VERTICALBLIND).
+Definition is_rs_func (f : Z) : bool := func_has_kind 1 f.
+Definition is_fb_func (f : Z) : bool := func_has_kind 2 f.
 
-(* supla_esp_gpio_rs_apply_new_config / supla_esp_gpio_fb_apply_new_config(channel_number = c, …).
-   `fixed = false`: the code of the unchanged tree: guard `0 <= c < RS_MAX_COUNT` only.
-   `fixed = true` : the proposed repair (docs/fixes/C03_rs_config_guards.diff): additionally the shutter
-                    must exist in slot c, and the button pair is exchanged only when 2c+1 < INPUT_MAX_COUNT. *)
-Definition apply_config_mw (fixed : bool) (b : board) (c bud : Z) : list cell :=
-  if (0 <=? c) && (c <? RS_MAX) && (negb fixed || rs_present b c) then
+(* guards of the two apply_new_config functions.
+   `fixed = true`: the rows generated from the working tree, [kind; e; gm; ga; gb; im; ia]: e = 1: the function returns
+   unless the shutter exists in slot c; the exchange of supla_input_cfg[im*c] and [im*c+ia] happens under gm*c + ga < gb.
+   `fixed = false`: the code before docs/fixes/C03_rs_config_guards.diff: no existence test, no bound. *)
+Definition guard_of (fixed : bool) (kind : Z) : list Z :=
+  if fixed then
+    match find (fun row => match row with k :: _ => k =? kind | [] => false end) BUTTON_GUARDS with
+    | Some row => row | None => [kind; 0; 0; 0; 1; 2; 1] end
+  else [kind; 0; 0; 0; 1; 2; 1].
+
+Definition apply_config_cells (b : board) (c bud : Z) (exists_guard : bool) (gm ga gb im ia : Z) : list cell :=
+  if (0 <=? c) && (c <? RS_MAX) && (negb exists_guard || rs_present b c) then
     [(T_MOTOR_UD, c); (T_RS, c); (T_TIME_MARGIN, c); (T_TILT_TYPE, c); (T_TIME3, c)]
     ++ (if (0 <? bud) && (bud <? 3)
-        then (T_GLOBAL, 0) :: (if negb fixed || (2 * c + 1 <? INPUT_MAX) then [(T_INPUT, 2 * c); (T_INPUT, 2 * c + 1)] else [])
+        then (T_GLOBAL, 0) :: (if gm * c + ga <? gb then [(T_INPUT, im * c); (T_INPUT, im * c + ia)] else [])
         else [])
     ++ (if rs_present b c then rs_all_cells b c else [])
   else [].
+
+(* supla_esp_gpio_rs_apply_new_config (kind 1) / supla_esp_gpio_fb_apply_new_config (kind 2) for channel_number = c *)
+Definition apply_config_mw (fixed : bool) (b : board) (kind c bud : Z) : list cell :=
+  match guard_of fixed kind with
+  | [_; e; gm; ga; gb; im; ia] => apply_config_cells b c bud (e =? 1) gm ga gb im ia
+  | _ => []
+  end.
 
 (* supla_esp_channel_config_result *)
 Definition config_result_mw (fixed : bool) (b : board) (c func ctype csize bud_rs bud_fb : Z) : list cell :=
@@ -205,9 +221,9 @@ Definition config_result_mw (fixed : bool) (b : board) (c func ctype csize bud_r
            (filter (fun a => negb (r_gpio (relay_at b a) =? 255) && (r_channel (relay_at b a) =? c)) (slots RELAY_MAX))
     else []
   else if is_rs_func func then
-    if (ctype =? 0) && (RSC_SIZE <=? csize) then (T_VISTYPE, c) :: apply_config_mw fixed b c bud_rs else []
+    if (ctype =? 0) && (RSC_SIZE <=? csize) then (T_VISTYPE, c) :: apply_config_mw fixed b 1 c bud_rs else []
   else if is_fb_func func then
-    if (ctype =? 0) && (FBC_SIZE <=? csize) then (T_VISTYPE, c) :: apply_config_mw fixed b c bud_fb else []
+    if (ctype =? 0) && (FBC_SIZE <=? csize) then (T_VISTYPE, c) :: apply_config_mw fixed b 2 c bud_fb else []
   else if func =? FNC_ACTIONTRIGGER then
     if (ctype =? 0) && (csize =? ATC_SIZE)
     then map (fun i => (T_INPUT, i)) (filter (fun i => i_channel (input_at b i) =? c) (slots INPUT_MAX))
